@@ -9,7 +9,7 @@
 #define LP_NMAX 70000
 #endif
 
-size_t g_lp_sum[9];
+size_t g_lp_sum[9], g_lp_pos[9];
 size_t g_lp_c;
 
 #if VERIF_IS_NATIVE
@@ -167,7 +167,10 @@ void h_flenp_buffer_encode_n(void)
 
 /* ---- chunk lists ----------------------------------------------------------------
  * in_chunks <= LP_CMAX chunks, each an own exact-size heap block in any state
- * (empty chunks included), `active` anywhere in 0..chunks; the ghost prefix
+ * (empty chunks included), `active` anywhere in 0..chunks; the chunk array has
+ * LP_CMAX entries (a fixed-size block: a symbolic-size array of structs costs
+ * a multiple of the solver time; entries from in_chunks on are arbitrary and
+ * an access behind entry LP_CMAX - 1 leaves the block); the ghost prefix
  * sums are computed here (native replay) resp. constrained by the contract's
  * precondition (proof). */
 #ifndef LP_CHUNK_NMAX
@@ -175,11 +178,11 @@ void h_flenp_buffer_encode_n(void)
 #endif
 #define LP_ONE_CHUNK(i) \
   IN(size_t, in_size##i) IN(size_t, in_used##i) IN(size_t, in_offset##i) \
-  LP_FOLD(in_size##i, 1, LP_CHUNK_NMAX) LP_FOLD(in_used##i, 0, in_size##i) LP_FOLD(in_offset##i, 0, in_used##i) \
-  ASSUME(in_size##i >= 1 && in_size##i <= LP_CHUNK_NMAX && in_offset##i <= in_used##i && in_used##i <= in_size##i); \
+  LP_FOLD(in_size##i, 0, LP_CHUNK_NMAX) LP_FOLD(in_used##i, 0, in_size##i) LP_FOLD(in_offset##i, 0, in_used##i) \
+  ASSUME(in_size##i <= LP_CHUNK_NMAX && in_offset##i <= in_used##i && in_used##i <= in_size##i); \
   IN_MEM(in_data##i, in_size##i) \
   if ((i) < in_chunks) { \
-    chunk[i].data = in_data##i; chunk[i].size = in_size##i; chunk[i].used = in_used##i; chunk[i].offset = in_offset##i; \
+    chunk[i].data = in_size##i == 0u ? (unsigned char *)0 : in_data##i; chunk[i].size = in_size##i; chunk[i].used = in_used##i; chunk[i].offset = in_offset##i; \
   }
 #if LP_CMAX == 2
 #define LP_EACH(M) M(0) M(1)
@@ -209,11 +212,20 @@ void h_flenp_buffer_encode_n(void)
 #define LP_ONE_SUM(i) IN(size_t, in_sum##i) g_lp_sum[i] = in_sum##i;
 #define LP_SUMS(oc) LP_EACH(LP_ONE_SUM) LP_LAST(LP_ONE_SUM)
 #endif
+/* ... and the ghost positions for the frame sent from the current sink position */
+#if VERIF_IS_NATIVE
+#define LP_POSITIONS(k, oc) \
+  for (size_t i_ = 0; i_ <= LP_CMAX; i_++) \
+    g_lp_pos[i_] = g_snk_pos + lp_spec_len((k), g_lp_sum[(oc)->chunks]) + g_lp_sum[i_ < (oc)->chunks ? i_ : (oc)->chunks];
+#else
+#define LP_ONE_POS(i) IN(size_t, in_pos##i) g_lp_pos[i] = in_pos##i;
+#define LP_POSITIONS(k, oc) LP_EACH(LP_ONE_POS) LP_LAST(LP_ONE_POS)
+#endif
 #define LP_CHUNKS(oc) \
   IN(size_t, in_chunks) IN(size_t, in_active) \
   LP_FOLD(in_chunks, 0, LP_CMAX) LP_FOLD(in_active, 0, in_chunks) \
   ASSUME(in_chunks <= LP_CMAX && in_active <= in_chunks); \
-  ByteBuffer *chunk = malloc(in_chunks * sizeof(ByteBuffer)); ASSUME(chunk != NULL); \
+  ByteBuffer *chunk = malloc(LP_CMAX * sizeof(ByteBuffer)); ASSUME(chunk != NULL); \
   LP_EACH(LP_ONE_CHUNK) \
   (oc)->chunks = in_chunks; (oc)->active = in_active; (oc)->chunk = chunk; \
   LP_SUMS(oc)
@@ -270,6 +282,7 @@ void h_flenp_chunks_to_sink(void)
   LP_SINK(snk)
   ByteChunks *oc = malloc(sizeof(ByteChunks)); ASSUME(oc != NULL);
   LP_CHUNKS(oc)
+  LP_POSITIONS(k, oc)
   flenp_chunks_to_sink(k, &snk, oc);
   VERIF_CANARY();
 }
@@ -374,3 +387,122 @@ void h_lemma_consecutive_frames(void)
   lp_two_frames(k, &src, in_mem1, in_size1, in_mem2, in_size2);
   VERIF_CANARY();
 }
+
+/* ---- the redundant ghost facts of LP_CHUNKS_OK / LP_CHUNKS_POS_OK ------------
+ * "every partial sum is at most the total", "every chunk ends at or before the
+ * frame's end", "the frame's end is payload start + total" are consequences of
+ * the recurrences (sums and positions grow by the unread counts, no wrap):
+ * spelling them out in the preconditions restricts nothing. */
+#define LP_G_REC(i) \
+  ASSUME(IMPLIES(in_active <= (i) && (i) < in_chunks, \
+    g_lp_sum[(i) + 1] == g_lp_sum[i] + rest[i] && g_lp_sum[(i) + 1] >= g_lp_sum[i] \
+    && g_lp_pos[(i) + 1] == g_lp_pos[i] + rest[i] && g_lp_pos[(i) + 1] >= g_lp_pos[i]));
+#define LP_G_REST(i) IN(size_t, in_rest##i) rest[i] = in_rest##i;
+#define LP_G_SUM(i) IN(size_t, in_gsum##i) g_lp_sum[i] = in_gsum##i;
+#define LP_G_POS(i) IN(size_t, in_gpos##i) g_lp_pos[i] = in_gpos##i;
+#define LP_G_CHECK(i) \
+  CHECK(IMPLIES(in_active <= (i) && (i) < in_chunks, g_lp_sum[(i) + 1] <= g_lp_sum[in_chunks]), \
+        "a partial sum is at most the total"); \
+  CHECK(IMPLIES(in_active <= (i) && (i) < in_chunks, g_lp_pos[(i) + 1] <= g_lp_pos[in_chunks]), \
+        "a chunk ends at or before the frame's end");
+void h_lemma_chunk_ghosts(void)
+{
+  IN(size_t, in_chunks) IN(size_t, in_active)
+  ASSUME(in_chunks <= LP_CMAX && in_active <= in_chunks);
+  size_t rest[9];
+  LP_EACH(LP_G_REST)
+  LP_EACH(LP_G_SUM) LP_LAST(LP_G_SUM)
+  LP_EACH(LP_G_POS) LP_LAST(LP_G_POS)
+  ASSUME(g_lp_sum[in_active] == 0u);
+  LP_EACH(LP_G_REC)
+  LP_EACH(LP_G_CHECK)
+  CHECK(g_lp_pos[in_chunks] == (size_t)(g_lp_pos[in_active] + g_lp_sum[in_chunks]),
+        "the frame's end is the payload's start plus the total");
+  CHECK(g_lp_pos[in_chunks] >= g_lp_pos[in_active], "the payload does not wrap");
+  VERIF_CANARY();
+}
+
+/* ---- bounded round trip on concrete streams (tier B) ----------------------------
+ * Two frames of every kind are written into a real ByteBuffer through the
+ * library's buffer sink (sink_to_buffer) and read back through its buffer
+ * source (source_from_buffer): everything is the real code (endpoints/core.c,
+ * endpoints/buffer.c, byte-buffer.c, variable-length-integer.c), the loops are
+ * unwound.  Payload lengths 1..LP_RT_NMAX, destination capacities 0..LP_RT_NMAX
+ * + 1 (below, at and above the length), the second frame is appended to a
+ * partly filled buffer.  This is where "out of memory exactly when the length
+ * exceeds the room" is run for all kinds. */
+#ifdef LP_UNIT_ROUNDTRIP
+#ifndef LP_RT_NMAX
+#define LP_RT_NMAX 3
+#endif
+#define LP_RT_WIRE (2u * (LP_PREFIX_ROOM + LP_RT_NMAX))
+void h_roundtrip_buffers(void)
+{
+  GHOST_HAVOC();
+  LP_KIND(k)
+  IN(size_t, in_n1) IN(size_t, in_n2) IN(size_t, in_cap) IN(size_t, in_fill)
+  LP_FOLD(in_n1, 1, LP_RT_NMAX) LP_FOLD(in_n2, 1, LP_RT_NMAX) LP_FOLD(in_cap, 0, LP_RT_NMAX + 1) LP_FOLD(in_fill, 0, 2)
+  ASSUME(in_n1 >= 1 && in_n1 <= LP_RT_NMAX && in_n2 >= 1 && in_n2 <= LP_RT_NMAX);
+  ASSUME(in_cap <= LP_RT_NMAX + 1u && in_fill <= 2u);
+  IN_MEM(in_p1, in_n1)
+  IN_MEM(in_p2, in_n2)
+  IN_MEM(in_wire, LP_RT_WIRE)
+  ByteBuffer wb;
+  Sink snk;
+  byte_buffer_space(&wb, in_wire, LP_RT_WIRE);
+  sink_to_buffer(&snk, &wb);
+
+  /* encode */
+  const size_t l1 = lp_spec_len(k, in_n1), l2 = lp_spec_len(k, in_n2);
+  const ssize_t r1 = flenp_memory_to_sink(k, &snk, in_p1, in_n1);
+  CHECK(r1 == (ssize_t)(l1 + in_n1), "first frame: total reported");
+  const ssize_t r2 = flenp_memory_to_sink(k, &snk, in_p2, in_n2);
+  CHECK(r2 == (ssize_t)(l2 + in_n2), "second frame: total reported");
+  CHECK(wb.used == l1 + in_n1 + l2 + in_n2 && wb.offset == 0u, "the wire holds both frames and nothing else");
+  CHECK(IMPLIES(g_k < l1, in_wire[g_k] == lp_spec_octet(k, in_n1, g_k)), "first frame: prefix on the wire");
+  CHECK(IMPLIES(g_k < in_n1, in_wire[l1 + g_k] == in_p1[g_k]), "first frame: payload on the wire");
+  CHECK(IMPLIES(g_k < l2, in_wire[l1 + in_n1 + g_k] == lp_spec_octet(k, in_n2, g_k)), "second frame: prefix on the wire");
+  CHECK(IMPLIES(g_k < in_n2, in_wire[l1 + in_n1 + l2 + g_k] == in_p2[g_k]), "second frame: payload on the wire");
+
+  /* decode: first frame into memory of in_cap octets */
+  Source src;
+  source_from_buffer(&src, &wb);
+  IN_MEM(in_dst, in_cap)
+  IN(uint8_t, in_mark)
+  if (g_j < in_cap) in_dst[g_j] = in_mark;
+  const ssize_t d1 = flenp_memory_from_source(k, &src, in_dst, in_cap);
+  if (in_cap >= in_n1) {
+    CHECK(d1 == (ssize_t)in_n1, "first frame: room >= length: the length is returned");
+    CHECK(IMPLIES(g_k < in_n1, in_dst[g_k] == in_p1[g_k]), "first frame: exactly the payload");
+    CHECK(IMPLIES(g_j < in_cap && g_j >= in_n1, in_dst[g_j] == in_mark), "first frame: nothing behind the payload is touched");
+    CHECK(wb.offset == l1 + in_n1, "the stream position is behind the first frame");
+
+    /* second frame appended to a buffer that holds in_fill octets already */
+    IN(size_t, in_bsize)
+    LP_FOLD(in_bsize, in_fill == 0 ? 1 : in_fill, in_fill + LP_RT_NMAX + 1)
+    ASSUME(in_bsize >= 1u && in_bsize >= in_fill && in_bsize <= in_fill + LP_RT_NMAX + 1u);
+    IN_MEM(in_bdata, in_bsize)
+    IN(uint8_t, in_old)
+    if (g_j < in_bsize) in_bdata[g_j] = in_old;
+    ByteBuffer db;
+    byte_buffer_set(&db, in_bdata, in_bsize, in_fill, 0u);
+    const ssize_t d2 = flenp_buffer_from_source(k, &src, &db);
+    if (in_bsize - in_fill >= in_n2) {
+      CHECK(d2 == (ssize_t)in_n2, "second frame: room >= length: the length is returned");
+      CHECK(db.used == in_fill + in_n2 && db.offset == 0u, "second frame: appended, used advanced by the length");
+      CHECK(IMPLIES(g_k < in_n2, in_bdata[in_fill + g_k] == in_p2[g_k]), "second frame: exactly the payload behind the filled region");
+      CHECK(IMPLIES(g_j < in_bsize && (g_j < in_fill || g_j >= in_fill + in_n2), in_bdata[g_j] == in_old),
+            "second frame: the filled region and the rest of the buffer are untouched");
+      CHECK(wb.offset == wb.used, "the stream is used up");
+    } else {
+      CHECK(d2 == -ENOMEM, "second frame: room < length: out of memory");
+      CHECK(db.used == in_fill && db.offset == 0u && IMPLIES(g_j < in_bsize, in_bdata[g_j] == in_old),
+            "second frame: out of memory leaves the buffer alone");
+    }
+  } else {
+    CHECK(d1 == -ENOMEM, "first frame: room < length: out of memory");
+    CHECK(IMPLIES(g_j < in_cap, in_dst[g_j] == in_mark), "first frame: out of memory leaves the destination alone");
+  }
+  VERIF_CANARY();
+}
+#endif /* LP_UNIT_ROUNDTRIP */
